@@ -63,6 +63,15 @@ def drop(d):
     sh(["git", "-C", "/repo", "worktree", "prune"])
 
 
+def revert_commits(wt, commits):
+    """Bring the scratch worktree back to the tree a change was written against (a later `fix:`
+    commit in /repo removed the freedom the change depends on)."""
+    for c in commits or []:
+        rc, o, e = sh(["bash", "-c", f"git show {c} -- tealer | git apply -R"], cwd=wt)
+        if rc != 0:
+            raise SystemExit(f"cannot revert {c}: {e}")
+
+
 def cmd_import(a):
     dst = os.path.join(V, "seeded", a.id)
     os.makedirs(dst, exist_ok=True)
@@ -95,6 +104,7 @@ def cmd_verify(a):
     demo = demo_name(d)
     wt = worktree()
     try:
+        revert_commits(wt, m.get("against_tree_before"))
         rc_clean, out_clean = run_demo(d, demo, wt)
         rc, o, e = sh(["git", "apply", os.path.join(d, "patch.diff")], cwd=wt)
         if rc != 0:
@@ -141,6 +151,7 @@ def cmd_detect(a):
     wt = worktree()
     scratch = tempfile.mkdtemp(prefix="seeded-ev-")
     try:
+        revert_commits(wt, m.get("against_tree_before"))
         rc, o, e = sh(["git", "apply", os.path.join(d, "patch.diff")], cwd=wt)
         if rc != 0:
             raise SystemExit("patch does not apply: " + e)
